@@ -492,6 +492,16 @@ func (e persistEngine) genC11p(g *Gen, emit func(persistIn)) {
 		emit(persistIn{Arts: []artJ{in2, f, a}})
 		// the name only on an append, after an ordinary file that already carries an append
 		emit(persistIn{Arts: []artJ{mkArt("file", "ok.go", "F"), mkArt("app", "ok.go", "+"), a}})
+		// a soft error earlier in the run does not excuse a bad name later; and a processor that
+		// matches must not change which name reaches the response
+		if i%4 == 1 {
+			emit(persistIn{Arts: []artJ{mkArt("err", "", "soft"), f}})
+			emit(persistIn{Arts: []artJ{mkArt("err", "", "soft"), mkArt("file", "ok.go", "F"), a, in1}})
+		}
+		if i%4 == 2 {
+			all := procJ{Kinds: []int{0, 1, 2, 3, 4, 5}, Suffix: toB("<p>")}
+			emit(persistIn{Arts: []artJ{f, a, in1, in2}, Procs: []procJ{all}})
+		}
 		// the name on something that is not one of the six kinds (a pointer to one, a foreign type
 		// embedding one): never emitted, whatever the name
 		if i%8 == 0 {
